@@ -581,7 +581,7 @@ impl VisitMut for GuardExits {
         }
     }
 }
-fn apply_guard(b: &mut Block, pat: &[PTok], reset: &[Stmt], is_fn_body: bool) -> bool {
+fn apply_guard(b: &mut Block, pat: &[PTok], reset: &[Stmt], acquire: &[Stmt], is_fn_body: bool) -> bool {
     let mut at = None;
     for (i, s) in b.stmts.iter().enumerate() {
         if match_stmt(pat, s, false).is_some() {
@@ -592,6 +592,7 @@ fn apply_guard(b: &mut Block, pat: &[PTok], reset: &[Stmt], is_fn_body: bool) ->
     if let Some(i) = at {
         let mut rest: Vec<Stmt> = b.stmts.split_off(i + 1);
         b.stmts.pop(); // the guard statement itself
+        b.stmts.extend(acquire.iter().cloned());
         let mut ge = GuardExits { reset: reset.to_vec() };
         for s in rest.iter_mut() {
             ge.visit_stmt_mut(s);
@@ -611,18 +612,18 @@ fn apply_guard(b: &mut Block, pat: &[PTok], reset: &[Stmt], is_fn_body: bool) ->
         return true;
     }
     // search nested blocks
-    struct Finder<'p> { pat: &'p [PTok], reset: &'p [Stmt], done: bool }
+    struct Finder<'p> { pat: &'p [PTok], reset: &'p [Stmt], acquire: &'p [Stmt], done: bool }
     impl<'p> VisitMut for Finder<'p> {
         fn visit_block_mut(&mut self, b: &mut Block) {
             if self.done { return; }
-            if apply_guard(b, self.pat, self.reset, false) { self.done = true; return; }
+            if apply_guard(b, self.pat, self.reset, self.acquire, false) { self.done = true; return; }
         }
         fn visit_expr_mut(&mut self, e: &mut Expr) {
             if self.done { return; }
             visit_mut::visit_expr_mut(self, e);
         }
     }
-    let mut f = Finder { pat, reset, done: false };
+    let mut f = Finder { pat, reset, acquire, done: false };
     for s in b.stmts.iter_mut() {
         visit_mut::visit_stmt_mut(&mut f, s);
         if f.done { return true; }
@@ -1052,8 +1053,21 @@ fn emit_target(ctx: &mut Ctx, unit: &Unit, t: &Target) -> Emitted {
         all.extend(unit.rules.iter().filter(|r| visible.contains(&r.file)));
         for r in all.iter().filter(|r| r.kind == "guard") {
             let ts = match instantiate(&r.tpl, &pat::Binds::new()) { Ok(t) => t, Err(m) => die(&format!("{}: {}", r.origin, m)) };
-            let blk: Block = match syn::parse2(quote!({ #ts })) { Ok(b) => b, Err(e) => die(&format!("{}: guard reset does not parse: {}", r.origin, e)) };
-            let applied = apply_guard(&mut block, &r.pat, &blk.stmts, true);
+            // `RESET ;; ACQUIRE`: ACQUIRE (optional) replaces the guard statement itself
+            let toks: Vec<proc_macro2::TokenTree> = ts.into_iter().collect();
+            let mut split = None;
+            for i in 0..toks.len().saturating_sub(1) {
+                if let (proc_macro2::TokenTree::Punct(a), proc_macro2::TokenTree::Punct(b)) = (&toks[i], &toks[i + 1]) {
+                    if a.as_char() == ';' && b.as_char() == ';' { split = Some(i); break; }
+                }
+            }
+            let (reset_ts, acq_ts): (TokenStream, TokenStream) = match split {
+                Some(i) => (toks[..=i].iter().cloned().collect(), toks[i + 2..].iter().cloned().collect()),
+                None => (toks.iter().cloned().collect(), TokenStream::new()),
+            };
+            let blk: Block = match syn::parse2(quote!({ #reset_ts })) { Ok(b) => b, Err(e) => die(&format!("{}: guard reset does not parse: {}", r.origin, e)) };
+            let acq: Block = match syn::parse2(quote!({ #acq_ts })) { Ok(b) => b, Err(e) => die(&format!("{}: guard acquire does not parse: {}", r.origin, e)) };
+            let applied = apply_guard(&mut block, &r.pat, &blk.stmts, &acq.stmts, true);
             if !applied && r.required {
                 die(&format!("lost anchor: target {} — guard statement not found: {}", t.name, r.src));
             }
